@@ -319,7 +319,11 @@ func srvScript(t *testing.T, r *Rng, s *Stream, c *SrvConf, replaySteps []script
 	if len(hosts) >= 2 && r.Chance(20) {
 		a, b := 0, 1
 		near := offerHold - 2*time.Second
-		switch r.Intn(4) {
+		switch r.Intn(5) {
+		case 4: // a bound client sends something spurious (another server's id, elsewhere, unknown type), then a competitor tries
+			sp := Pick(r, "wrong-server", "wrong-server", "unicast-elsewhere", "unknown-type", "selecting-other", "discover-sid")
+			plan = []planStep{{0, a, "discover"}, {time.Second, a, "selecting"}, {5 * time.Second, a, sp}, {time.Second, b, "discover"}, {time.Second, b, "selecting"},
+				{time.Second, a, "renewing"}, {offerHold + 2*time.Second, b, "discover"}, {time.Second, b, "selecting"}}
 		case 0: // re-DISCOVER shortly before the hold runs out, then a competitor, then the first host's REQUEST
 			plan = []planStep{{0, a, "discover"}, {near, a, "discover"}, {3 * time.Second, b, "discover"}, {time.Second, b, "selecting"}, {time.Second, a, "selecting"}}
 		case 1: // re-DISCOVER shortly before the lease runs out
